@@ -202,7 +202,8 @@ def check_C16(tier):
     for rec in records:
         v = verdicts[rec["id"]]
         src2, src3, a, b = info[rec["id"]]
-        name = [c for c in rec["v2"] if c[1] in dict(table)][0][1]
+        legacy = [c for c in rec["v2"] if c[1] in dict(table)]
+        name = legacy[0][1] if legacy else "mpilot-name:" + ([c[1] for c in rec["v2"] if c[0] == ""] or ["?"])[0]
         if v != "ok":
             chk.finding("C16:convert:%s:%s" % (v, name), "EEMS 2.0 file with %s: %s" % (name, v),
                         {"eems2_source": src2, "image_source": src3, "loaded_from_2.0": repr(a)[:800], "loaded_from_image": repr(b)[:800]})
